@@ -147,8 +147,19 @@ class Driver:
             self._fs_saved = None
 
     # -- lifecycle ------------------------------------------------------------
-    def new(self):
+    def new(self, refused_first=None):
+        """refused_first: keyword arguments of a new() call that must be refused, made on the same object before the real one."""
         self.iso = self.pm.PyCdlib(always_consistent=bool(self.cfg.get('always_consistent')))
+        self.refused_new = None
+        if refused_first is not None:
+            kw = G.new_kwargs(self.cfg)
+            kw.update(refused_first)
+            try:
+                self.iso.new(**kw)
+                self.refused_new = Outcome(True)
+                self.iso.close()
+            except Exception as e:  # noqa
+                self.refused_new = Outcome(False, e)
         self.iso.new(**G.new_kwargs(self.cfg))
 
     def write(self, blocksize=None, disk=None, recording=False, faults=None, progress_cb=None, iso=None):
@@ -166,6 +177,49 @@ class Driver:
         iso.open_fp(fp)
         return iso, fp
 
+    def decoy_of(self, disk):
+        """A different image with the same names: the image on `disk` with every byte of file data inverted."""
+        from . import alloc
+        data = bytearray(disk.data)
+        try:
+            am = alloc.build(bytes(data), None)
+            for (kind, start, ln) in am.objects:
+                if kind == 'file':
+                    data[start:start + ln] = bytes(b ^ 0xff for b in data[start:start + ln])
+        except Exception:
+            return None
+        return SimDisk(disk.name + '.decoy', bytes(data), self.world.next_seq)
+
+    def reopen_same_object(self, iso, disk, decoy=False):
+        """close() and open the image on `disk` with the *same* PyCdlib object (documented as allowed).  With decoy=True the
+        object first opens a different image that has the same names, every one of which is looked up in every namespace,
+        and is closed again: whatever the object remembers across close() now answers with the decoy's records."""
+        iso.close()
+        if decoy:
+            dd = self.decoy_of(disk)
+            if dd is not None:
+                iso.open_fp(SimFile(dd, 'rb'))
+                try:
+                    self.touch_all_names(iso)
+                finally:
+                    iso.close()
+        fp = SimFile(disk, 'rb')
+        iso.open_fp(fp)
+        return iso, fp
+
+    @staticmethod
+    def touch_all_names(iso):
+        """Look every name of every namespace up once (fills whatever lookup caches there are)."""
+        for kw in ('iso_path', 'rr_path', 'joliet_path', 'udf_path'):
+            if (kw == 'rr_path' and not iso.has_rock_ridge()) or (kw == 'joliet_path' and not iso.has_joliet()) or (kw == 'udf_path' and not iso.has_udf()):
+                continue
+            for dirpath, dirs, files in iso.walk(**{kw: '/'}):
+                for nm in list(dirs) + list(files):
+                    try:
+                        iso.get_record(**{kw: (dirpath if dirpath != '/' else '') + '/' + nm})
+                    except Exception:
+                        pass
+
     def restart(self, via='fp'):
         """write_fp to a fresh disk, drop every in-memory object, open what the
         disk durably holds."""
@@ -173,6 +227,9 @@ class Driver:
         self.disks.append(d)
         old = self.iso
         self.world.new_generation()
+        if via in ('reuse', 'reuse-decoy'):
+            self.iso, self.cur_fp = self.reopen_same_object(old, d, decoy=(via == 'reuse-decoy'))
+            return d
         if via == 'file':
             name = SimFS.PREFIX + 'gen%d.iso' % len(self.disks)
             self.fs.files[name] = d
